@@ -208,3 +208,52 @@ Example ex_api :
   api_handler Redoc a [47;97;112;105;47;100;111;99;115;47] = AUI /\                    (* /api/docs/ *)
   api_handler Redoc a [47;97;112;105;47;112;101;116;115] = ARouter.                    (* /api/pets *)
 Proof. cbn zeta. repeat split; try reflexivity. discriminate. Qed.
+
+(* ---- several middlewares built in one process ---- *)
+Lemma ui_member_handler f o page hn req :
+  member_handler (MUI f o page) hn req =
+  if bytes_eqb (clean req) (ui_path f o) then HServe CTHtml page else if hn then HNext else H404 CTPlain.
+Proof.
+  cbn [member_handler]. unfold serve_ui, handler.
+  destruct (bytes_eqb (clean req) (ui_path f o)); [reflexivity|]. destruct hn; reflexivity.
+Qed.
+
+(* a chain of UI middlewares answers with the page of the FIRST member configured on the cleaned request path, the page
+   that member serves when built alone; when there is none the request reaches what is behind the chain *)
+Lemma chain_first_match ms hn req :
+  forallb is_ui_member ms = true ->
+  chain_handler ms hn req =
+  match find (fun m => bytes_eqb (clean req) (member_path m)) ms with
+  | Some m => HServe CTHtml (member_page m)
+  | None => if hn then HNext else H404 CTPlain
+  end.
+Proof.
+  induction ms as [|m r IH]; [reflexivity|].
+  cbn [forallb]. intros H. apply andb_true_iff in H as [Hm Hr].
+  destruct m as [f o page|f a page]; [|discriminate]. clear Hm.
+  cbn [chain_handler find member_path member_page].
+  destruct r as [|m' r'].
+  - rewrite ui_member_handler. destruct (bytes_eqb (clean req) (ui_path f o)); reflexivity.
+  - rewrite ui_member_handler. destruct (bytes_eqb (clean req) (ui_path f o)); [reflexivity|].
+    exact (IH Hr).
+Qed.
+
+(* side by side: what a member answers is a function of that member alone, the single-middleware function *)
+Lemma member_alone_ui f o page hn req :
+  member_handler (MUI f o page) hn req =
+  match serve_ui f o page hn req with Serve ct b => HServe ct b | Next => HNext | R404 ct => H404 ct end.
+Proof. reflexivity. Qed.
+
+Lemma member_page_served m hn :
+  is_ui_member m = true -> clean (member_path m) = member_path m ->
+  member_handler m hn (member_path m) = HServe CTHtml (member_page m).
+Proof.
+  destruct m as [f o page|f a page]; [|discriminate]. intros _ Hc.
+  rewrite ui_member_handler. cbn [member_path member_page] in *. rewrite Hc, bytes_eqb_refl. reflexivity.
+Qed.
+
+Lemma api_member_page f a page req :
+  member_handler (MAPI f a page) true req = HServe CTHtml page <-> api_handler f a req = AUI.
+Proof.
+  cbn [member_handler]. destruct (api_handler f a req); split; intros H; try discriminate; reflexivity.
+Qed.
